@@ -4,9 +4,9 @@
 EXTENDS Props, TLCExt, Json
 
 Id(v) == <<TLCFP(v), TLCFP(<<"salt", v>>)>>
-CurVars == <<prog, chan, lk, state, reducers, mws, subs, pool, tasks, pc, loc, m, h, lbl>>
-NxtVars == <<prog', chan', lk', state', reducers', mws', subs', pool', tasks', pc', loc', m', h', lbl'>>
+CurVars == <<prog, chan, lk, state, reducers, mws, subs, pool, tasks, pc, loc, sig, m, h, lbl>>
+NxtVars == <<prog', chan', lk', state', reducers', mws', subs', pool', tasks', pc', loc', sig', m', h', lbl'>>
 
-EmitEdge == PrintT(<<"E", Id(CurVars), Id(NxtVars), IF AllDone' THEN 1 ELSE 0, ToJson(lbl')>>)
+EmitEdge == PrintT(<<"E", Id(CurVars), Id(NxtVars), (IF AllDone' THEN 1 ELSE 0) + (IF ClientsDone' THEN 2 ELSE 0), ToJson(lbl')>>)
 EmitInit == (lbl.ev = "init") => PrintT(<<"I", Id(CurVars), ToJson(prog)>>)
 =============================================================================
